@@ -325,7 +325,8 @@ impl VirtualNet for Net {
             st.recv_count += 1;
             drop(guard);
             crate::alloc::resume(armed);
-            return Ok(Vec::new());
+            // (the real socket reserves the requested size before it finds the stream closed)
+            return Ok(Vec::with_capacity(size.unwrap_or(1024)));
         }
         if tcp && st.queues[c].is_empty() {
             if let Some(stream) = st.responder.stream(&st.conns[c]) {
@@ -399,9 +400,16 @@ impl VirtualNet for Net {
         });
         drop(guard);
         crate::alloc::resume(armed);
+        // the real sockets reserve the *requested* size before anything arrives (TCP: Vec::with_capacity(size), UDP:
+        // vec![0; size], 1024 when no size is given): the stand-in reserves the same, charged to the query, so that a receive
+        // size computed from a reply field shows up in the allocation counters
+        let reserve = size.unwrap_or(1024);
+        let mut buf: Vec<u8> = Vec::with_capacity(reserve);
         match answer {
-            // the buffer handed to the client is charged to the query
-            Some(d) => Ok(d.as_slice().to_vec()),
+            Some(d) => {
+                buf.extend_from_slice(d.as_slice());
+                Ok(buf)
+            }
             None => Err("timed out (virtual network)".to_string()),
         }
     }
